@@ -30,8 +30,8 @@ def bcjId (id : Nat) : Option Simple.FilterId :=
 
 /-- Decoding function of a non-last filter on a complete byte string (what `simple_code` / `delta_decode` produce when
     the whole stream has passed through them). -/
-def preFilter : FilterOpts → Option (List UInt8 → List UInt8)
-  | .delta dist => some (Delta.decodeAll dist)
+def preFilterWith (deltaDec : Nat → List UInt8 → List UInt8) : FilterOpts → Option (List UInt8 → List UInt8)
+  | .delta dist => some (deltaDec dist)
   | .bcj id off =>
     (bcjId id).map fun fid => fun buf => (Simple.filterCode fid false Bcj.X86State.init (BitVec.ofNat 32 off) buf).1
   | _ => none
@@ -46,7 +46,7 @@ def lastFilter : FilterOpts → Option Lzma2.LastFilter
 def fail (r : Ret) : PRes := { ret := r, out := [], consumed := 0 }
 
 /-- `lzma_raw_decoder_init(filters)` + `code` on the complete `input` with `outCap` bytes of output space. -/
-def payload (filters : List Filter) (input : List UInt8) (outCap : Nat) : PRes :=
+def payloadWith (deltaDec : Nat → List UInt8 → List UInt8) (filters : List Filter) (input : List UInt8) (outCap : Nat) : PRes :=
   match filters.mapM (fun f => (propsDecode f.id f.props).toOption) with
   | none => fail .optionsError
   | some opts =>
@@ -55,11 +55,13 @@ def payload (filters : List Filter) (input : List UInt8) (outCap : Nat) : PRes :
     | lastO :: preRev =>
       if !(preRev.all filterInitOk) then fail .optionsError
       else
-        match lastFilter lastO, preRev.reverse.mapM preFilter with
+        match lastFilter lastO, preRev.reverse.mapM (preFilterWith deltaDec) with
         | some last, some pre =>
           let r := Lzma2.rawDecode { pre := pre, last := last } input outCap
           { ret := r.ret, out := r.out, consumed := r.consumed }
         | _, _ => fail .optionsError
+
+def payload : List Filter → List UInt8 → Nat → PRes := payloadWith Delta.decodeAll
 
 def checkImpl : Check.Impl :=
   { crc32 := Crc.crc32Ref, crc64 := Crc.crc64Ref, shaK := Sha256.K, shaInit := Sha256.H0 }
@@ -77,8 +79,8 @@ def stdEnv : Env := { payload := payload, checkSupported := Check.isSupported, c
 
   `stdEnv.check` runs the list-based models of Model/Check.lean / Model/Sha256.lean, which take about a millisecond per
   64-byte block. The correspondence runs decode tens of thousands of damaged files, so the drivers use `fastEnv`: the
-  same payload decoder, the table-driven CRCs of Model/XzStruct.lean and a SHA-256 over `UInt32` arrays. `fastSelfTest`
-  (run by the drivers before they answer anything) compares `fastCheck` with `check` on messages of every length 0..150.
+  same payload decoder (with an array-based delta decoder), the table-driven CRCs of Model/XzStruct.lean and a SHA-256 over `UInt32` arrays. `fastSelfTest`
+  (run by the drivers before they answer anything) compares `fastCheck` with `check` on messages around every block boundary, and `deltaFast` with `Delta.decodeAll`.
   No theorem depends on `fastEnv`: the container theorems hold for every `Env`. -/
 
 def shaK32 : Array UInt32 := (Sha256.K.map fun w => w.toNat.toUInt32).toArray
@@ -144,11 +146,23 @@ def fastCheck (id : Nat) (data : List UInt8) : List UInt8 :=
   else if id = 10 then shaFast d
   else check id data
 
-def fastEnv : Env := { payload := payload, checkSupported := Check.isSupported, check := fastCheck }
+/-- `delta_decode`: `out[i] = in[i] + out[i - dist]` (bytes before the start count as zero). -/
+def deltaFast (dist : Nat) (inp : List UInt8) : List UInt8 := Id.run do
+  let a := inp.toArray
+  let mut o := ByteArray.emptyWithCapacity a.size
+  for i in [0:a.size] do
+    let prev : UInt8 := if i ≥ dist then o.get! (i - dist) else 0
+    o := o.push (a[i]! + prev)
+  return o.toList
+
+def fastEnv : Env := { payload := payloadWith deltaFast, checkSupported := Check.isSupported, check := fastCheck }
 
 def fastSelfTest : Bool :=
-  (List.range 151).all fun n =>
+  ([0, 1, 2, 3, 54, 55, 56, 57, 63, 64, 65, 118, 119, 120, 127, 128, 129, 150].all fun n =>
     let msg := (List.range n).map fun i => UInt8.ofNat (i * 37 + n * 11 + 5)
-    [0, 1, 2, 4, 7, 10, 13].all fun id => fastCheck id msg == check id msg
+    [0, 1, 2, 4, 7, 10, 13].all fun id => fastCheck id msg == check id msg)
+  && ([1, 2, 3, 4, 16, 255, 256].all fun dist =>
+    let msg := (List.range 600).map fun i => UInt8.ofNat (i * i + 7 * i + dist)
+    deltaFast dist msg == Delta.decodeAll dist msg)
 
 end XzVerif.XzEnv
